@@ -327,7 +327,11 @@ func (w *world) req(rid int) *reqCtl {
 
 func (w *world) stubURL(up int) string { return w.stubs[up].srv.URL }
 
-func newWorld() *world {
+func newWorld() *world { return newWorldFor(nil) }
+
+// newWorldFor builds the rig around the given controller (nil: a controller stepped through the shim, its lister
+// reading the rig's own indexer).
+func newWorldFor(ctl *controllers.UpstreamClusterController) *world {
 	throughputOnce.Do(func() { throughput = monitor.NewThroughputMonitor() })
 	w := &world{reqs: map[int]*reqCtl{}, cls: map[int]*clObj{}, clPtr: map[*clusters.ClusterInfo]*clObj{},
 		eps: map[int]*epObj{}, epPtr: map[*clusters.EndpointInfo]*epObj{}, tokens: map[string]string{}}
@@ -337,7 +341,11 @@ func newWorld() *world {
 		w.stubs = append(w.stubs, s)
 	}
 	w.indexer = cache.NewIndexer(cache.MetaNamespaceKeyFunc, cache.Indexers{})
-	w.ctrl = controllers.VerifC15NewController(w.indexer)
+	if ctl != nil {
+		w.ctrl = ctl
+	} else {
+		w.ctrl = controllers.VerifC15NewController(w.indexer)
+	}
 
 	// the gateway's own multi-cluster authentication / authorization webhooks, with their real caches: both go
 	// ClientFor(host) -> PickOne -> the endpoint's clientset -> TokenReview / SubjectAccessReview at the upstream
